@@ -636,7 +636,7 @@ def assemble(vspec_path, vacuity=False):
 # ---------------------------------------------------------------------------------------------
 
 VERIF_FAIL_PAT = re.compile(
-    r'postcondition not satisfied|precondition not satisfied|requires not satisfied|invariant not satisfied|assertion failed|'
+    r'postcondition not satisfied|precondition not satisfied|precondition not met|requires not satisfied|invariant not satisfied|assertion failed|'
     r'possible arithmetic (?:under|over)flow|possible (?:division|bit shift)|decreases not satisfied|'
     r'could not prove termination|possible overflow|recommendation not met|cannot show invariant|'
     r'possible truncation|split assertion failure|unreachable|panic|loop invariant|post-condition of closure|pre-condition of closure', re.I)
